@@ -25,6 +25,7 @@ const (
 	zzErrRemoteFatal
 	zzErrLocalFatal
 	zzErrInvalidFatal
+	zzErrFatalUnavailable
 	zzErrKinds
 )
 
@@ -48,6 +49,9 @@ func zzMakeErr(k int) error {
 		return errors.E(errors.Fatal, "zz: local fatal")
 	case zzErrInvalidFatal:
 		return errors.E(errors.Invalid, errors.Fatal, "zz: cannot encode argument")
+	case zzErrFatalUnavailable:
+		// how bigmachine reports a machine that stopped (keepalive failure)
+		return errors.E(errors.Fatal, errors.Unavailable, "zz: keepalive failed")
 	}
 	panic("zz: bad error kind")
 }
@@ -146,7 +150,8 @@ func zzH_C02_run() {
 	}
 	task.state = TaskWaiting // Eval hands tasks over in WAITING
 	zzCheckInvErr = zzMakeErr(zz.AnyIntIn("checkInvErr", 0, 1))
-	zzCompileErr = zzMakeErr(zz.AnyIntIn("compileErr", 0, zzErrKinds-1))
+	compileKind := zz.AnyIntIn("compileErr", 0, zzErrKinds-1)
+	zzCompileErr = zzMakeErr(compileKind)
 	zzCommitErr = zzMakeErr(zz.AnyIntIn("commitErr", 0, 1))
 	runKind := zz.AnyIntIn("runErr", 0, zzErrKinds-1)
 	zzRunErr = zzMakeErr(runKind)
@@ -203,6 +208,17 @@ func zzH_C02_run() {
 	}
 	if zzRunCalls == 0 && st == TaskLost {
 		zz.Reach("lost while compiling")
+	}
+	// classification of a failed compilation on the machine
+	if zzCompileErr != nil && compileKind != zzErrCtxCanceled {
+		switch compileKind {
+		case zzErrRemotePlain, zzErrRemoteFatal, zzErrInvalidFatal:
+			zz.Reach("compilation failed fatally")
+			zz.Assert(st == TaskErr && !ranWorker, "a compilation that fails on the worker, or whose arguments cannot be encoded, fails the task")
+		default:
+			zz.Reach("machine lost while compiling")
+			zz.Assert(st == TaskLost && !ranWorker, "any other compilation failure (machine stopped, transport, unavailable) marks the task LOST so that it is recomputed elsewhere")
+		}
 	}
 }
 
